@@ -209,7 +209,7 @@ func ops() []op {
 		tag := fmt.Sprintf("{%d,org:%d,%s}", a.Id, a.OrgId, a.Region)
 		out = append(out, op{name: "InsertRow" + tag, table: "accts", complies: comp, run: func(ctx context.Context, e *env) error {
 			_, err := e.db.InsertRow(ctx, a)
-			return ignoreDup(err)
+			return err
 		}})
 		out = append(out, op{name: "UpsertRow" + tag, table: "accts", complies: comp, run: func(ctx context.Context, e *env) error {
 			_, err := e.db.UpsertRow(ctx, a)
@@ -232,7 +232,7 @@ func ops() []op {
 		for _, chunk := range []int{1, 2} {
 			chunk := chunk
 			tag := fmt.Sprintf("[%d,%d]/chunk%d", pair[0], pair[1], chunk)
-			out = append(out, op{name: "InsertRows" + tag, table: "accts", complies: comp, multi: true, run: func(ctx context.Context, e *env) error { return ignoreDup(e.db.InsertRows(ctx, rows, chunk)) }})
+			out = append(out, op{name: "InsertRows" + tag, table: "accts", complies: comp, multi: true, run: func(ctx context.Context, e *env) error { return e.db.InsertRows(ctx, rows, chunk) }})
 			out = append(out, op{name: "UpsertRows" + tag, table: "accts", complies: comp, multi: true, run: func(ctx context.Context, e *env) error { return e.db.UpsertRows(ctx, rows, chunk) }})
 		}
 	}
@@ -262,13 +262,6 @@ func ops() []op {
 		}})
 	}
 	return out
-}
-
-func ignoreDup(err error) error {
-	if err != nil && strings.Contains(err.Error(), "duplicate primary key") {
-		return nil
-	}
-	return err
 }
 
 // confined checks one logged statement against the limit.
